@@ -660,6 +660,29 @@ func checkNoSelfAddParseTree(p *Program, r *Report, rule string) {
 						self = true
 					}
 				}
+				// inside the escaper (commit runs at every first execution): only the context-specific copies it made
+				// itself — the members of its map of derived templates — may be added; a member of the set that is
+				// already registered would be replaced, or written in place, while other goroutines execute it
+				if f.Signature.Recv() != nil && isNamedPtr(f.Signature.Recv().Type(), pkgTemplate, "escaper") {
+					fromDerived := false
+					tree := c.Common().Args[2]
+					if ld, ok := tree.(*ssa.UnOp); ok {
+						if fa, ok := ld.X.(*ssa.FieldAddr); ok {
+							if ex, ok := fa.X.(*ssa.Extract); ok {
+								if nx, ok := ex.Tuple.(*ssa.Next); ok {
+									if rg, ok := nx.Iter.(*ssa.Range); ok {
+										if ml, ok := rg.X.(*ssa.UnOp); ok {
+											if mf, ok := ml.X.(*ssa.FieldAddr); ok && fieldName(mf.X.Type(), mf.Field) == "derived" {
+												fromDerived = true
+											}
+										}
+									}
+								}
+							}
+						}
+					}
+					r.Check(fromDerived, rule, cn+"#only-derived", p.Pos(in.Pos()), "the escaper adds only the context-specific copies it made itself (its map of derived templates)", "the escaper adds a tree that does not come from its map of derived templates: a member that is already registered and may be executing is replaced or — when the arbitrary receiver happens to be that member — has its Tree written in place, on every later first execution of another member of the set")
+				}
 				r.Check(!self, rule, cn, p.Pos(in.Pos()), "the tree is added under a name taken from another template than the receiver: text/template installs a new object", "a text template is added to the set through itself (AddParseTree(t.Name(), …) on t): text/template then assigns t.Tree in place, and since commit() adds every derived template again on each first execution, that write hits an object other goroutines are executing")
 			}
 		}
@@ -667,4 +690,9 @@ func checkNoSelfAddParseTree(p *Program, r *Report, rule string) {
 	if n == 0 {
 		r.OK(rule, "template#add-parse-tree", "", "package template does not call text/template's AddParseTree")
 	}
+}
+
+func isNamedPtr(t types.Type, pkgPath, name string) bool {
+	pt, ok := t.Underlying().(*types.Pointer)
+	return ok && isNamed(pt.Elem(), pkgPath, name)
 }
